@@ -8,6 +8,7 @@ import (
 // Mutex is the drop-in for sync.Mutex. Lock is a scheduling point; Unlock is not (left-mover) and
 // wakes every waiter, each of which retries — so barging and every wake-up order are explorable.
 type Mutex struct {
+	h       H
 	held    bool
 	epoch   uint64
 	owner   *Thread
@@ -20,6 +21,7 @@ func (m *Mutex) fresh(r *Runtime) {
 		m.held = false
 		m.owner = nil
 		m.waiters = nil
+		m.h = H{}
 	}
 }
 
@@ -43,6 +45,7 @@ func (m *Mutex) Lock() {
 	}
 	m.held = true
 	m.owner = r.cur
+	r.event(&m.h, 0x10)
 	raceAcquire(m)
 }
 
@@ -61,10 +64,12 @@ func (m *Mutex) TryLock() bool {
 	m.fresh(r)
 	r.point("TryLock")
 	if m.held {
+		r.event(&m.h, 0x12)
 		return false
 	}
 	m.held = true
 	m.owner = r.cur
+	r.event(&m.h, 0x10)
 	raceAcquire(m)
 	return true
 }
@@ -85,6 +90,7 @@ func (m *Mutex) Unlock() {
 	raceRelease(m)
 	m.held = false
 	m.owner = nil
+	r.event(&m.h, 0x11)
 	for _, w := range m.waiters {
 		r.ready(w)
 	}
@@ -100,6 +106,7 @@ type Locker interface {
 // RWMutex is the drop-in for sync.RWMutex (writer preference as in the real one: a pending writer
 // blocks new readers).
 type RWMutex struct {
+	h        H
 	epoch    uint64
 	writer   bool
 	readers  int
@@ -139,6 +146,7 @@ func (m *RWMutex) Lock() {
 	}
 	m.wwaiting--
 	m.writer = true
+	r.event(&m.h, 0x20)
 	raceAcquire(m)
 	raceAcquire(&m.rsync)
 }
@@ -158,6 +166,7 @@ func (m *RWMutex) Unlock() {
 	}
 	raceRelease(m)
 	m.writer = false
+	r.event(&m.h, 0x21)
 	m.wakeAll(r)
 }
 
@@ -177,6 +186,7 @@ func (m *RWMutex) RLock() {
 		r.block("rwmutex(r)")
 	}
 	m.readers++
+	r.event(&m.h, 0x22)
 	raceAcquire(m)
 }
 
@@ -195,6 +205,7 @@ func (m *RWMutex) RUnlock() {
 	}
 	raceReleaseMerge(&m.rsync)
 	m.readers--
+	r.event(&m.h, 0x23)
 	if m.readers == 0 {
 		m.wakeAll(r)
 	}
@@ -208,9 +219,11 @@ func (m *RWMutex) TryLock() bool {
 	m.fresh(r)
 	r.point("RWMutex.TryLock")
 	if m.writer || m.readers > 0 {
+		r.event(&m.h, 0x24)
 		return false
 	}
 	m.writer = true
+	r.event(&m.h, 0x20)
 	raceAcquire(m)
 	raceAcquire(&m.rsync)
 	return true
@@ -224,9 +237,11 @@ func (m *RWMutex) TryRLock() bool {
 	m.fresh(r)
 	r.point("RWMutex.TryRLock")
 	if m.writer || m.wwaiting > 0 {
+		r.event(&m.h, 0x24)
 		return false
 	}
 	m.readers++
+	r.event(&m.h, 0x22)
 	raceAcquire(m)
 	return true
 }
@@ -240,6 +255,7 @@ func (r *rlocker) Unlock() { (*RWMutex)(r).RUnlock() }
 
 // Once is the drop-in for sync.Once.
 type Once struct {
+	h       H
 	epoch   uint64
 	state   uint8 // 0 new, 1 running, 2 done
 	waiters []*Thread
@@ -268,14 +284,17 @@ func (o *Once) Do(f func()) {
 		r.block("once")
 	}
 	if o.state == 2 {
+		r.event(&o.h, 0x31)
 		raceAcquire(o)
 		return
 	}
 	o.state = 1
+	r.event(&o.h, 0x30)
 	defer func() {
 		raceRelease(o)
 		o.state = 2
 		if rt == r && !r.aborting {
+			r.event(&o.h, 0x32)
 			for _, w := range o.waiters {
 				r.ready(w)
 			}
@@ -287,6 +306,7 @@ func (o *Once) Do(f func()) {
 
 // WaitGroup is the drop-in for sync.WaitGroup.
 type WaitGroup struct {
+	h       H
 	n       int
 	waiters []*Thread
 }
@@ -297,6 +317,9 @@ func (wg *WaitGroup) Add(delta int) {
 		r.point("WaitGroup.Add")
 	}
 	raceReleaseMerge(wg)
+	if r != nil && !r.aborting {
+		r.event(&wg.h, 0x40)
+	}
 	wg.n += delta
 	if wg.n < 0 {
 		panic("sync: negative WaitGroup counter")
@@ -321,6 +344,7 @@ func (wg *WaitGroup) Wait() {
 		wg.waiters = append(wg.waiters, r.cur)
 		r.block("waitgroup")
 	}
+	r.event(&wg.h, 0x41)
 	raceAcquire(wg)
 }
 
@@ -334,6 +358,7 @@ func (wg *WaitGroup) Go(f func()) {
 
 // Cond is the drop-in for sync.Cond.
 type Cond struct {
+	h       H
 	L       Locker
 	waiters []*Thread
 }
@@ -346,6 +371,7 @@ func (c *Cond) Wait() {
 		return
 	}
 	c.waiters = append(c.waiters, r.cur)
+	r.event(&c.h, 0x50)
 	c.L.Unlock()
 	r.block("cond")
 	raceAcquire(c)
@@ -359,7 +385,9 @@ func (c *Cond) Signal() {
 	}
 	r.point("Cond.Signal")
 	raceReleaseMerge(c)
+	r.event(&c.h, 0x51)
 	if len(c.waiters) > 0 {
+		absorb(c.waiters[0], c.h)
 		r.ready(c.waiters[0])
 		c.waiters = c.waiters[1:]
 	}
@@ -372,7 +400,9 @@ func (c *Cond) Broadcast() {
 	}
 	r.point("Cond.Broadcast")
 	raceReleaseMerge(c)
+	r.event(&c.h, 0x52)
 	for _, w := range c.waiters {
+		absorb(w, c.h)
 		r.ready(w)
 	}
 	c.waiters = nil
@@ -430,6 +460,7 @@ func poolFresh() {
 
 // Pool is the drop-in for sync.Pool: a deterministic LIFO free list.
 type Pool struct {
+	h     H
 	New   func() any
 	items []any
 	epoch uint64
@@ -447,6 +478,11 @@ func (p *Pool) fresh() {
 	if e := Epoch(); p.epoch != e {
 		p.epoch = e
 		p.items = nil
+		p.h = H{}
+	}
+	// with reuse enabled the free-list order is shared state: chain the operation (no scheduling point)
+	if poolMode != PoolQuarantine && Active() {
+		rt.event(&p.h, 0x70)
 	}
 }
 
